@@ -13,8 +13,9 @@
    nodes r below a, relativises them to  render_rel r  and asks the oracle for  a ++ dir_of r  —
    which is what ProtoModel.include_args does on segments.
 
-   Counterexample kept as a theorem: [s_input_equals_refuted] — the input directory is cut at
-   '=' like an -include entry (known finding C20-input-dir-equals).
+   [s_input_equals_fixed]: the input directory is taken as typed; the behaviour before fix
+   C20-input-dir-equals (cut at '=' like an -include entry) is kept as [s_argv_orig] with
+   [s_input_equals_refuted_orig].
 
    The end-to-end equation  s_argv W g = rendering of ProtoModel.run cfg  is evaluated on every
    case of the correspondence run (coverage keys exact_argv_equal_to_structured_model /
@@ -226,23 +227,35 @@ Definition eq_gen : Generate :=
   {| g_InputDir := "k=v"; g_ProtocPath := ""; g_Recurse := false; g_VTProto := false;
      g_GRPC := false; g_Include := [] |}.
 
-(* the input directory exists and holds a proto; the tool does not run protoc at all: the
-   include path is computed for "k", which does not exist *)
-Theorem s_input_equals_refuted :
+(* Run before fix C20-input-dir-equals: strings.Cut was applied to the input directory as to
+   every -include entry *)
+Definition s_argv_orig (W : world) (g : Generate) : list string + gerror :=
+  let '(paths, e) := s_find_protos W g (g_InputDir g) (g_Recurse g) in
+  if negb (err_is_nil e) then inr e
+  else match s_collect (s_include_args W g) (g_InputDir g :: g_Include g) with
+       | inr e => inr e
+       | inl incs => inl (s_plugin_flags g ++ incs ++ paths)
+       end.
+
+(* record of the defect: the input directory exists and holds a proto, yet the tool did not run
+   protoc at all — the include path was computed for "k", which does not exist *)
+Theorem s_input_equals_refuted_orig :
   fs_resolve eq_world (g_InputDir eq_gen) <> None
   /\ fst (s_find_protos eq_world eq_gen (g_InputDir eq_gen) false) = ["k=v/a.proto"]
-  /\ s_run eq_world eq_gen = (EFail, []).
+  /\ s_argv_orig eq_world eq_gen = inr EFail.
 Proof. vm_compute. repeat split. discriminate. Qed.
 
-(* with the same directory named "kv" the tool runs protoc once, with -I for the input directory *)
-Example s_input_no_equals :
-  snd (s_run {| w_root := Dir "" [Dir "m" [Dir "kv" [File "a.proto" "syntax = ""proto3"";" true]]];
-                w_cwd := "/m"; w_pkg := fun _ => Ok "example.com/m/kv"; w_exec := fun _ _ => ENil |}
-             {| g_InputDir := "kv"; g_ProtocPath := ""; g_Recurse := false; g_VTProto := false;
-                g_GRPC := false; g_Include := [] |})
-  = [("protoc", ["--go_out=."; "--go_opt=paths=source_relative"; "--fatal_warnings"; "-I=/m/kv";
-                 "--go_opt=Ma.proto=example.com/m/kv"; "kv/a.proto"])].
+(* the repaired Run takes the input directory as typed *)
+Theorem s_input_equals_fixed :
+  snd (s_run eq_world eq_gen)
+  = [("protoc", ["--go_out=."; "--go_opt=paths=source_relative"; "--fatal_warnings"; "-I=/m/k=v";
+                 "--go_opt=Ma.proto=example.com/m/kv"; "k=v/a.proto"])].
 Proof. vm_compute. reflexivity. Qed.
+
+(* an -include entry is still cut at its first '=' *)
+Example s_include_still_cut :
+  s_include_args eq_world eq_gen "k=v=p/q" = s_include_core eq_world eq_gen "k" "v=p/q" true.
+Proof. reflexivity. Qed.
 
 (* unclean spellings of the input directory: the walk root keeps its spelling (and is the only
    path equal to g.InputDir), the entries below it are cleaned by Join *)
